@@ -112,7 +112,11 @@ def gen_cases(rng, n):
                      E.op("pow", E.sym(w), E.sym("x"))):
             out.append({"expr": body, "via_parser": True})
     for t in ["PI * x", "exp(1) * y", "2 * PI + x", "x ^ -1", "x ^ (1/2) * y ^ (3/2)", "-x", "-(x + y)", "x - y", "1/(x + y)", "x/y/2",
-              "(x ^ 2) ^ y", "x ^ y ^ 2", "f(x) ^ -2", "lambda ^ in", "2 ^ -x", "-2 ^ x", "(-2) ^ x", "x // y", "x % y", "0.001 * x", "x * 1.5e-07"]:
+              "(x ^ 2) ^ y", "x ^ y ^ 2", "f(x) ^ -2", "lambda ^ in", "2 ^ -x", "-2 ^ x", "(-2) ^ x", "x // y", "x % y", "0.001 * x", "x * 1.5e-07",
+              # floats that sympy writes in EXPONENT notation (below 1e-5, from 1e16 on), the exponent ending in a zero or not,
+              # alone, as a coefficient, as an argument, as an exponent
+              "1e-10 * x", "2.5e+20 * N", "f(1.0e+30, y)", "1e100", "x + 1e16", "3e-7 * x + 1e-20", "g(x, 1.25e-10)", "x ^ 1e-10",
+              "1.5e-300 * y", "6.02e23 * x", "max(x, 1e20)", "1e-6 + 1e-5 * x", "123456789.0 * x", "1e15 * x", "x / 4e-30"]:
         out.append({"text": t})
     return out
 
